@@ -310,7 +310,9 @@ where
     }
     let mut q = 0u64;
     let absent = |probe_i: usize| -> Vec<u8> { key_bytes(N, c.prefix, 2 * probe_i as u32) };
-    let stages: [&str; 4] = ["memory", "disk", "reloaded", "reopened"];
+    // "redumped": the index that was loaded back from the file is written out again (what happens after a delete into a
+    // closed blob) - the second file has to be as complete as the first one
+    let stages: [&str; 5] = ["memory", "disk", "reloaded", "redumped", "reopened"];
     let mut file_len = 0u64;
     for stage in stages {
         match stage {
@@ -330,6 +332,14 @@ where
                 }
                 if probe.on_disk() {
                     return fail("index/load-still-on-disk", "load returned Ok but the index is still on disk".into());
+                }
+            }
+            "redumped" => {
+                if let Err(e) = probe.dump(c.blob_size).await {
+                    return fail("index/redump-err", format!("{:#}", e));
+                }
+                if !probe.on_disk() {
+                    return fail("index/dump-not-on-disk", "second dump returned Ok but the index is still in memory".into());
                 }
             }
             _ => {
@@ -556,7 +566,7 @@ pub fn run(ctx: &RunCtx) -> PropResult {
     PropResult {
         report,
         level: "exploration",
-        rule: "Header multisets pushed through the IndexProbe hook into the crate-private index: key length from {1,2,3,4,5,6,7,8,16,33,48,65,71,100,138,284,400,576,1000} (fan-out 454..5; 7 and 71 make the serialized header divide the 4 KiB block; 3,5,6,48,65,138,284,576 are the lengths where an inner node with one more child would still fit if the extra pointer were forgotten), key counts drawn around 1, one block, fan-out and fan-out^2 blocks (up to 3000 keys / 6000 headers), up to 4 keys with version runs of 2, 3, block-1, block, block+1, 2 blocks, 2 blocks+1 or 1..300, timestamps from 1-4 values (heavy ties), 0/15/50 % deletion markers, shuffled push order. For key lengths 8 / 33 / 400 a third (sweep: half) of the cases use a key type whose order is not the byte order (bytes compared from the last to the first, i.e. a little-endian integer compared numerically): every comparison inside the file index has to go through the key type. Oracle: get_latest, get_all, get_all_with_deletion_marker and count in four stages (in memory, dumped to file, loaded back, opened from file) against a sorted-list model (timestamp desc, later push first, cut after first marker) for present keys, the absent key below each of them, below the minimum and above the maximum. A hook-free phase (storage-tree) drives 20-250 distinct keys of 100 / 400 bytes (fan-out 38 / 11, i.e. two node levels) with version runs through Storage (write, switch, wait for the dump, restart with index kept or removed) and compares every query for every key with the reference model. A second, enumerated phase sweeps key counts around every power of the fan-out and runs around block boundaries per key length. Non-trivial = >=2 node levels above the leaves, or a version run longer than a block, or a last leaf shorter than a block. distinct = FNV hash of the serialized case.".into(),
+        rule: "Header multisets pushed through the IndexProbe hook into the crate-private index: key length from {1,2,3,4,5,6,7,8,16,33,48,65,71,100,138,284,400,576,1000} (fan-out 454..5; 7 and 71 make the serialized header divide the 4 KiB block; 3,5,6,48,65,138,284,576 are the lengths where an inner node with one more child would still fit if the extra pointer were forgotten), key counts drawn around 1, one block, fan-out and fan-out^2 blocks (up to 3000 keys / 6000 headers), up to 4 keys with version runs of 2, 3, block-1, block, block+1, 2 blocks, 2 blocks+1 or 1..300, timestamps from 1-4 values (heavy ties), 0/15/50 % deletion markers, shuffled push order. For key lengths 8 / 33 / 400 a third (sweep: half) of the cases use a key type whose order is not the byte order (bytes compared from the last to the first, i.e. a little-endian integer compared numerically): every comparison inside the file index has to go through the key type. Oracle: get_latest, get_all, get_all_with_deletion_marker and count in five stages (in memory, dumped to file, loaded back, dumped again from the loaded index, opened from file) against a sorted-list model (timestamp desc, later push first, cut after first marker) for present keys, the absent key below each of them, below the minimum and above the maximum. A hook-free phase (storage-tree) drives 20-250 distinct keys of 100 / 400 bytes (fan-out 38 / 11, i.e. two node levels) with version runs through Storage (write, switch, wait for the dump, restart with index kept or removed) and compares every query for every key with the reference model. A second, enumerated phase sweeps key counts around every power of the fan-out and runs around block boundaries per key length. Non-trivial = >=2 node levels above the leaves, or a version run longer than a block, or a last leaf shorter than a block. distinct = FNV hash of the serialized case.".into(),
         assumptions: {
             let mut a = common_assumptions();
             a.push("IndexProbe (src/verif.rs) builds headers from a bincode mirror of record::Header and calls Index::push/dump/load/get_* unchanged".into());
